@@ -110,7 +110,7 @@ def _short(s, n=160):
     return s if len(s) <= n else s[:n - 3] + '...'
 
 
-def run_unit(unit_dir, repo, work, rlimit=None):
+def run_unit(unit_dir, repo, work, rlimit=None, stability_seeds=()):
     unit = os.path.basename(unit_dir.rstrip('/'))
     res = UnitResult(unit)
     t0 = time.time()
@@ -330,6 +330,19 @@ def run_unit(unit_dir, repo, work, rlimit=None):
         if bad:
             res.status = 'undecided'
             res.reason = f'vacuous: canary assert(false) verified under the preconditions of {bad}'
+    # thorough tier: the same unit under other solver seeds. A proof that holds under one seed and not under another is
+    # unstable: reported as undecided (exit 2), never as a violation.
+    if res.status == 'ok' and stability_seeds:
+        res.stability = {}
+        for sd in stability_seeds:
+            _, _, sjs, sdiags, _ = _run_verus(gen, ['--smt-option', f'smt.random_seed={sd}', '--smt-option', f'sat.random_seed={sd}'])
+            svr = sjs.get('verification-results', {})
+            ok = bool(svr.get('success')) and svr.get('errors', 1) == 0
+            res.stability[str(sd)] = ok
+        bad = [k for k, v in res.stability.items() if not v]
+        if bad:
+            res.status = 'undecided'
+            res.reason = f'unstable proof: verified with the default solver seed but not with seed(s) {bad}'
     res.wall_s = time.time() - t0
     return res
 
